@@ -816,7 +816,11 @@ class SList:
             return to_opt(v)
         if self.etype == "int":
             if isinstance(v, SOpt) or v is None:
-                raise Undecided("None stored into int list")
+                # python lists are heterogeneous: the list becomes a list of Optional[int]
+                old = self._get
+                self._get = lambda j: to_opt(old(j))
+                self.etype = "optint"
+                return to_opt(v)
             return SV(z3int(v))
         if self.etype == "real":
             return SV(z3real(v))
